@@ -643,6 +643,9 @@ func (x *c12) caseRtxWriteRace() {
 func (x *c12) caseCloseDuringRtxWrite() {
 	_, fail := schedule(x.rto)
 	k := x.rng.Intn(maxRtx) // 0: the request's first write, made by the caller of PerformTransaction itself
+	if x.rng.Intn(3) == 0 {
+		k = 0
+	}
 	failWrite := x.rng.Intn(2) == 0
 	msg, tid := x.request()
 	x.srv.SetHandler(nil)
